@@ -207,7 +207,7 @@ pub mod parser {
     /// a = {fill: red}
     /// b = {stroke: blue}
     fn css_style_list<'a>() -> Parser<'a, char, Vec<(String, String)>> {
-        list(class_and_style(), new_line())
+        list(class_and_style(), space() * new_line())
     }
 
     /// a = {fill: red}
@@ -233,7 +233,10 @@ pub mod parser {
     pub(crate) fn parse_css_legend(
         input: &str,
     ) -> Result<Vec<(String, String)>, pom::Error> {
-        let input_chars: Vec<char> = input.chars().collect();
+        // carriage returns are dropped, so that a legend with CRLF line endings
+        // is parsed the same way as one with LF line endings
+        let input_chars: Vec<char> =
+            input.chars().filter(|ch| *ch != '\r').collect();
         parse_css_legend_chars(&input_chars)
     }
 
